@@ -217,8 +217,36 @@ SatisfiesRules(s, x) ==
           /\ (p.has /\ p.v.t = "l" => \A i \in DOMAIN p.v.es : p.v.es[i].t = "m" => SatisfiesRules(s, p.v.es[i]))
           /\ (p.has /\ p.v.t = "mp" => \A i \in DOMAIN p.v.es : p.v.es[i].v.t = "m" => SatisfiesRules(s, p.v.es[i].v))
 
-\* the losses are allowed, not required: what comes back is the value itself or its normal form
-RoundTripOK(s, x, back) == PlainMsg(back) \in {NormMsg(s, x), PlainMsg(x)}
+\* The losses are allowed, not required - field by field: a set-but-empty message under empty_behavior NULL /
+\* OMIT may come back unset or present (a decoder may read "c": null as "present and empty"); a timestamp
+\* leaf comes back exact or truncated to its format; the other fields of a map-value unwrap wrapper never travel.
+RECURSIVE BackVal(_, _, _, _), BackMsg(_, _, _)
+BackVal(s, f, x, b) ==
+  /\ b.t = x.t
+  /\ CASE x.t = "s"  -> b.tok \in {x.tok, NormLeaf(f, x)}
+        [] x.t = "l"  -> Len(b.es) = Len(x.es) /\ \A i \in DOMAIN x.es : BackVal(s, f, x.es[i], b.es[i])
+        [] x.t = "mp" -> /\ {x.es[i].k : i \in DOMAIN x.es} = {b.es[i].k : i \in DOMAIN b.es} /\ Len(b.es) = Len(x.es)
+                         /\ \A i \in DOMAIN x.es : \E j \in DOMAIN b.es :
+                               /\ b.es[j].k = x.es[i].k
+                               /\ LET v == x.es[i].v w == b.es[j].v IN
+                                  IF v.t = "m" /\ HasMsg(s, v.type) /\ HasUnwrap(MsgByName(s, v.type)) /\ w.t = "m" /\ "fs" \in DOMAIN w
+                                  THEN LET un == UnwrapFieldOf(MsgByName(s, v.type)).name IN
+                                       \A p \in Range(v.fs) : \E q \in Range(w.fs) : q.name = p.name /\
+                                           (IF p.name = un THEN (p.has = q.has /\ (p.has => BackVal(s, FieldOf(MsgByName(s, v.type), un), p.v, q.v))) ELSE ~q.has)
+                                  ELSE BackVal(s, f, v, w)
+        [] x.t = "m"  -> BackMsg(s, x, b)
+BackMsg(s, x, b) ==
+  IF "fs" \notin DOMAIN x \/ ~HasMsg(s, x.type) THEN b.tok = x.tok
+  ELSE /\ "fs" \in DOMAIN b
+       /\ LET M == MsgByName(s, x.type) IN
+          \A p \in Range(x.fs) : \E q \in Range(b.fs) :
+             /\ q.name = p.name
+             /\ LET f == FieldOf(M, p.name)
+                    mayLose == p.has /\ p.v.t = "m" /\ p.v.empty /\ f.ann.empty \in {"NULL", "OMIT"}
+                IN IF ~p.has THEN ~q.has
+                   ELSE IF mayLose THEN (~q.has \/ BackVal(s, f, p.v, q.v))
+                   ELSE q.has /\ BackVal(s, f, p.v, q.v)
+RoundTripOK(s, x, back) == PlainMsg(back) \in {NormMsg(s, x), PlainMsg(x)} \/ BackMsg(s, x, back)
 RoundTripFlatLossOK(s, x, back) == PlainMsg(back) = NormMsgF(s, x, TRUE)
 
 \* Skeleton of a value for the finding D_stdjson_children: the children a message encodes with
